@@ -10,3 +10,9 @@ import Fir.Props.C18
 #print axioms Fir.C18.vertPass_monotone_u8
 #print axioms Fir.C18.horizPass_monotone_u16
 #print axioms Fir.C18.vertPass_monotone_u16
+#print axioms Fir.C18.twoPass_monotone_u8
+#print axioms Fir.C18.qBox_nonneg
+#print axioms Fir.C18.qBilinear_nonneg
+#print axioms Fir.C18.idealWeights_nonneg_box
+#print axioms Fir.C18.idealWeights_nonneg_bilinear
+#print axioms Fir.C18.convex_combination_range
